@@ -2,6 +2,7 @@
 import json, os, tempfile
 from fractions import Fraction
 from .. import tlc
+from ..common import mktempdir as _mktempdir
 from ..common import EXACT_EMBS, DEC_EMBS, unfl, run_driver_parallel
 from ..fix import fix
 
@@ -123,7 +124,7 @@ def run(ctx):
     r = tlc.run_tlc("PersistentEntropy", workers=8, constants=dict(MaxDgms=2 if quick else 3), invariants=["OutcomeAsStated", "CoefBounds"], heap="4g")
     ctx.model("PersistentEntropy pipeline", r)
     # R: spec -> code
-    tmpd = tempfile.mkdtemp(prefix="entdump_")
+    tmpd = _mktempdir(prefix="entdump_")
     dump, pool = os.path.join(tmpd, "dump.json"), os.path.join(tmpd, "pool.json")
     r = tlc.run_tlc("PersistentEntropy", workers=1, env={"DUMP_FILE": dump, "POOL_FILE": pool}, init="DumpInit", nxt="Next", constants=dict(MaxDgms=2), invariants=["PoolDump"], heap="2g")
     if r["error"] or not os.path.exists(dump) or not os.path.exists(pool):
